@@ -24,15 +24,15 @@ Expected(e) ==
     [] e.op = "reduce"    -> Ok(Reduce(e.in.a, e.in.red, e.in.skipna))
 
 \* results of computing operations carry terms: their values are evaluated by the harness from the fibres printed below
-Computed(x) == x.ok /\ Len(x.val.cells) > 0 /\ DOMAIN x.val.cells[1] = {"fib", "nan"}
-Clause(x, y) ==      \* first disagreeing clause between expected x and logged y (both outcome records)
+ComputingOps == {"reduce"}
+Clause(x, y, computed) ==      \* first disagreeing clause between expected x and logged y (both outcome records)
   IF x.ok # y.ok THEN "outcome"
   ELSE IF ~x.ok THEN (IF x.err = y.err THEN "ok" ELSE "exception")
   ELSE IF x.val.dims # y.val.dims THEN "dims"
   ELSE IF x.val.labs # y.val.labs THEN "labels"
   ELSE IF Len(x.val.cells) # Len(y.val.cells) THEN "size"
-  ELSE IF ~Computed(x) /\ x.val.cells # y.val.cells THEN "cells"
-  ELSE IF ~Computed(x) /\ x.val.dtype # y.val.dtype THEN "dtype"
+  ELSE IF ~computed /\ x.val.cells # y.val.cells THEN "cells"
+  ELSE IF ~computed /\ x.val.dtype # y.val.dtype THEN "dtype"
   ELSE IF x.val.attrs # y.val.attrs THEN "attrs"
   ELSE IF x.val.aattrs # y.val.aattrs THEN "axis attrs"
   ELSE "ok"
@@ -41,8 +41,8 @@ TInit == l \in 1..Len(Events) /\ done = FALSE
 TNext == /\ ~done /\ done' = TRUE /\ l' = l
          /\ LET e == Events[l]
                 x == Expected(e)
-                c == Clause(x, e.out)
-            IN IF c = "ok" THEN (IF Computed(x) THEN PrintT(<<"F", e.id, ToJson(x.val.cells)>>) ELSE PrintT(<<"T", e.id>>))
+                c == Clause(x, e.out, e.op \in ComputingOps)
+            IN IF c = "ok" THEN (IF e.op \in ComputingOps /\ x.ok THEN PrintT(<<"F", e.id, ToJson(x.val.cells)>>) ELSE PrintT(<<"T", e.id>>))
                ELSE PrintT(<<"X", e.id, c, ToJson(x)>>)
 TSpec == TInit /\ [][TNext]_tvars
 =============================================================================
